@@ -272,4 +272,6 @@ def consumer(ctx, tabs):
     from . import c06
     from .common import shared
 
+    from . import c05 as _c05
+    shared(ctx, "C15.c", _c05.rule_e, why="transport_density weights the quadrature of the cell flux with the cell weights: exactness for constant / linear weighted fluxes needs the weights as given")
     shared(ctx, "C15.c", c06.rule_c, why="a rule that is exact for linear functions integrates the RT0 field exactly only if face_to_cell interpolates each component along its own axis")
